@@ -5,8 +5,71 @@
 use super::common::*;
 use super::{Ctx, PropertyDef, Scenario, COMMON_ASSUMPTIONS};
 use crate::harness::kit::*;
+use crate::harness::ilv::{program_scenario, IlvCfg, Oracle, Program, Run};
 use crate::harness::seq::*;
 use std::sync::Arc;
+
+/// After concurrent operations (the statistics counters are scheduling points here) the identities hold at quiescence.
+fn ilv_oracle() -> Oracle {
+    Arc::new(|run: &Run, out: &mut Vec<crate::harness::ilv::Finding>| {
+        use crate::harness::ilv::Finding;
+        let o = &run.obs_end;
+        let lookups: u64 = run.calls.iter().filter(|c| c.thread != PHASE_POST).map(|c| lookups(&c.op)).sum();
+        let returned: u64 = run
+            .calls
+            .iter()
+            .filter(|c| c.thread != PHASE_POST)
+            .map(|c| match &c.res {
+                Res::Read(v) => v.is_some() as u64,
+                Res::MultiRead(vs) => vs.iter().filter(|v| v.is_some()).count() as u64,
+                _ => 0,
+            })
+            .sum();
+        if o.stats[HITS] + o.stats[MISSES] != lookups {
+            out.push(Finding::new("hits+misses", "stats:hits+misses!=lookups", format!("{} lookups were performed but hits+misses = {}+{}", lookups, o.stats[HITS], o.stats[MISSES])));
+        }
+        if o.stats[HITS] != returned {
+            out.push(Finding::new("hits", "stats:hits!=successful-lookups", format!("{} lookups returned a value but CacheHits = {}", returned, o.stats[HITS])));
+        }
+        if o.stats[KEYS_ADDED] as i64 - o.stats[KEYS_DELETED] as i64 != o.store.len() as i64 {
+            out.push(Finding::new("keys-identity", "stats:keys-identity", format!("KeysAdded-KeysDeleted = {}-{} but {} keys are held", o.stats[KEYS_ADDED], o.stats[KEYS_DELETED], o.store.len())));
+        }
+        if o.stats[WEIGHT_ADDED].wrapping_sub(o.stats[WEIGHT_REMOVED]) as i64 != o.weight_used {
+            out.push(Finding::new("weight-identity", "stats:weight_added-weight_removed!=used", format!("WeightAdded-WeightRemoved = {}-{} but the total weight used is {}", o.stats[WEIGHT_ADDED], o.stats[WEIGHT_REMOVED], o.weight_used)));
+        }
+        let refused = run.calls.iter().filter(|c| c.thread != PHASE_POST && (matches!(c.op, Op::Put { .. }) || is_put_path(c)) && rejected_by_admission(run.status_of(c.thread, c.idx))).count() as u64;
+        if o.stats[KEYS_REJECTED] != refused {
+            out.push(Finding::new("keys-rejected", "stats:keys_rejected!=admission-refusals", format!("{} puts were refused by admission but KeysRejected = {}", refused, o.stats[KEYS_REJECTED])));
+        }
+        let (h, m) = (o.stats[HITS], o.stats[MISSES]);
+        let expect = if h + m == 0 { 0.0 } else { h as f64 / (h + m) as f64 };
+        if (o.hit_ratio - expect).abs() > 1e-12 {
+            out.push(Finding::new("hit-ratio", "stats:hit-ratio", format!("hits={} misses={} but hit_ratio={}", h, m, o.hit_ratio)));
+        }
+    })
+}
+
+fn ilv_programs() -> Vec<Program> {
+    let mut v = Vec::new();
+    let mk = |name: &str, w: i64, init: Vec<Op>, threads: Vec<Vec<Op>>| {
+        let mut p = Program::new(name);
+        p.setup = Setup { weight: w, buffer: 2, ..Setup::default() };
+        p.world.stats_atomics_are_points = true;
+        p.world.iter_order_is_choice = w < 10;
+        p.init = init;
+        p.threads = threads;
+        p
+    };
+    v.push(mk("get(a);get(c) || get(a);get(b)", 100, vec![put(1, 2), put(2, 2)], vec![vec![get(1), get(3)], vec![get(1), get(2)]]));
+    v.push(mk("put(c) || put(d) || get(a)", 100, vec![put(1, 2)], vec![vec![put(3, 2)], vec![put(4, 3)], vec![get(1)]]));
+    v.push(mk("evicting-put(c) || delete(b);get(a)", 4, vec![put(1, 2), put(2, 1)], vec![vec![put(3, 3)], vec![del(2), get(1)]]));
+    v.push(mk("upsert(a,w=1) || upsert(b,w=3) || multi_get([a,b])", 100, vec![put(1, 2), put(2, 2)], vec![
+        vec![Op::Upsert { k: 1, value: true, w: Some(1), ttl_ms: None, remove_ttl: false }],
+        vec![Op::Upsert { k: 2, value: true, w: Some(3), ttl_ms: None, remove_ttl: false }],
+        vec![Op::MultiRead { keys: vec![1, 2], variant: ReadVariant::MultiGet }],
+    ]));
+    v
+}
 
 fn lookups(op: &Op) -> u64 {
     match op {
@@ -112,6 +175,7 @@ fn spec(ctx: &Ctx, pressure: bool) -> SeqSpec {
         oracle: oracle(),
         keys: vec![1, 2, 3],
         canon_sketch: pressure,
+        ghost_key: None,
         max_states: 3_000_000,
         time_cap_s: if quick { 20.0 } else { 600.0 },
     }
@@ -130,6 +194,7 @@ fn spec_ratio(ctx: &Ctx) -> SeqSpec {
         oracle: oracle(),
         keys: vec![1, 2],
         canon_sketch: true,
+        ghost_key: None,
         max_states: 1_000_000,
         time_cap_s: 60.0,
     }
@@ -142,12 +207,24 @@ pub fn def(ctx: &Ctx) -> PropertyDef {
         scenarios.push(seq_scenario(move |c| spec(c, pressure), &name));
     }
     scenarios.push(seq_scenario(spec_ratio, "seq/stats-deltas/all-hit-and-all-miss"));
+    let quick = ctx.quick();
+    let workers = ctx.workers;
+    for p in ilv_programs() {
+        let three = p.threads.len() >= 3;
+        scenarios.push(program_scenario(p, ilv_oracle(), move |_c| IlvCfg {
+            bounds: if quick { if three { vec![0, 1] } else { vec![0, 1, 2] } } else if three { vec![0, 1, 2] } else { vec![0, 1, 2, 3] },
+            workers,
+            split_depth: 6,
+            time_cap_s: Some(if quick { 8.0 } else { 300.0 }),
+            max_executions: None,
+        }));
+    }
     let mut assumptions = COMMON_ASSUMPTIONS.to_vec();
     assumptions.push("counters are compared in delta form on every transition, so deduplicating states by a canonical form that drops the monotone counters loses nothing (DESIGN 3.4)");
     assumptions.push("in the all-hit scenario reads do not change the canonical state, so the hit ratio is checked after one read step from every reachable state rather than after long read runs");
     PropertyDef {
         id: "C16",
-        technique: "explicit-state model checking of the real code: breadth-first search over operation sequences with canonical-state deduplication; counter identities checked in delta form on every transition",
+        technique: "explicit-state model checking of the real code: breadth-first search over operation sequences with canonical-state deduplication, counter identities checked in delta form on every transition; plus stateless preemption-bounded model checking of concurrent clients with the statistics counters as scheduling points, identities checked at quiescence",
         rule: "seq: all histories over the alphabet up to the depth; distinct_nontrivial = canonical states first reached at depth >= 2",
         assumptions,
         scenarios,
